@@ -229,7 +229,8 @@ def render(atoms, variant='p'):
 
 SCALING = ['assign_chain', 'call_chain', 'inherit_chain', 'diamonds', 'call_tree',
            'nested_containers', 'nested_closures', 'decorator_chain', 'import_chain',
-           'assign_diamonds', 'attr_diamonds', 'instance_tree'] \
+           'assign_diamonds', 'attr_diamonds', 'instance_tree',
+           'builtin_call_chain', 'builtin_op_chain', 'method_chain_builtin'] \
     + ['chain_' + k for k in KINDS] + ['ring_' + k for k in KINDS]
 
 
@@ -310,6 +311,22 @@ def scaling(family, n):
         for k in range(1, n + 1):
             L.append('        self.a%d = self.a%d if c else self.a%d' % (k, k - 1, k - 1))
         L.append('r = S().a%d' % n)
+    elif family in ('builtin_call_chain', 'builtin_op_chain'):
+        # chain of DISTINCT functions; every level completes an execution in the builtins stub
+        # (len() / int.__add__) before it calls the next one, so only the execution *depth*
+        # limit can stop the descent (no per-function limit applies)
+        head = 'len("a") + ' if family == 'builtin_call_chain' else '1 + '
+        L += ['def f0():', '    return K()']
+        for k in range(1, n + 1):
+            L += ['def f%d():' % k, '    return %sf%d()' % (head, k - 1)]
+        L.append('r = f%d()' % n)
+    elif family == 'method_chain_builtin':
+        L += ['class C0:', '    def m(self):', '        return K()']
+        for k in range(1, n + 1):
+            L += ['class C%d:' % k, '    def __init__(self):', '        self.n = len("a")',
+                  '        self.o = C%d()' % (k - 1), '    def m(self):',
+                  '        v = self.n + self.o.m()', '        return v']
+        L.append('r = C%d().m()' % n)
     elif family == 'instance_tree':
         # binary tree through fresh instances: every S() is a new value, so nothing is shared
         L += ['class S:', '    def __init__(self):', '        self.a0 = K()']
